@@ -338,6 +338,21 @@ Definition c_new (fx : fixes) (fs : fsys) (p : Z) (m' : mtype) : option containe
       end
   end.
 
+(* the package-level effect of merge_styles_from *)
+Definition d_set_tree_opt (fx : fixes) (fs : fsys) (n : name) (ox : option xml) (d : document) : document * bool :=
+  match ox with
+  | None => (d, true)
+  | Some x' => let '(d', o) := d_tree fx fs n d in
+               match o with Some _ => (set_tree n x' d', true) | None => (d', false) end
+  end.
+Definition d_merge (fx : fixes) (fs : fsys) (sc sx : option xml) (imgs : list (name * bytes * mtype)) (d : document) : document * bool :=
+  let d0 := mkD (cont d) (xp_cache MANIFEST (xps d)) in          (* manifest = self.manifest : wrapper cached *)
+  let '(d1, ok1) := d_set_tree_opt fx fs CONTENT sc d0 in
+  let '(d2, ok2) := d_set_tree_opt fx fs STYLES sx d1 in
+  fold_left (fun (acc : document * bool) e =>
+               let '(d', ok) := d_import fx fs (fst (fst e)) (snd (fst e)) (snd e) (fst acc) in (d', snd acc && ok))
+            imgs (d2, ok1 && ok2).
+
 Inductive op :=
 | OOpen (p : Z) (as_buf : bool)          (* Document(path) / Document(BytesIO) *)
 | ONew (p : Z) (m' : mtype)              (* Document.new(template) / Document("text") *)
@@ -349,7 +364,11 @@ Inductive op :=
 | OAddFile (n : name) (b : bytes) (m : mtype)
 | OImport (n : name) (b : bytes) (m : mtype)
 | OSave (t : target) (pk : packaging) (pty : bool)
-| OClone.                                (* continue with document.clone *)
+| OClone                                 (* continue with document.clone *)
+| OMerge (sc sx : option xml) (imgs : list (name * bytes * mtype)).
+   (* Document.merge_styles_from(source): the content / styles trees are sc / sx afterwards (None = part not touched), and for
+      every image referenced by a merged master-page / fill-image style, in order: set_part(url, source bytes);
+      manifest.add_full_path(url, source media type) *)
 
 Inductive out := Done | Err | Got (b : bytes).
 
@@ -373,6 +392,7 @@ Definition step (fx : fixes) (s : fsys * document) (o : op) : (fsys * document) 
   | OImport n b m => let '(d', ok) := d_import fx fs n b m d in ((fs, d'), if ok then Done else Err)
   | OSave t pk pty => let '(fs', d', ok) := d_save fx fs d t pk pty in ((fs', d'), if ok then Done else Err)
   | OClone => ((fs, snd (d_clone fx fs d)), Done)
+  | OMerge sc sx imgs => let '(d', ok) := d_merge fx fs sc sx imgs d in ((fs, d'), if ok then Done else Err)
   end.
 
 Definition run (fx : fixes) (s : fsys * document) (os : list op) : fsys * document := fold_left (fun s o => fst (step fx s o)) os s.
@@ -479,7 +499,7 @@ Arguments mkC {bytes}. Arguments mkD {xml bytes}.
 Arguments CBytes {xml bytes}. Arguments CXml {xml bytes}.
 Arguments OOpen {xml bytes}. Arguments ONew {xml bytes}. Arguments OGetPart {xml bytes}. Arguments OTouch {xml bytes}.
 Arguments OEdit {xml bytes}. Arguments OSetPart {xml bytes}. Arguments ODelPart {xml bytes}. Arguments OAddFile {xml bytes}.
-Arguments OImport {xml bytes}. Arguments OSave {xml bytes}. Arguments OClone {xml bytes}.
+Arguments OImport {xml bytes}. Arguments OSave {xml bytes}. Arguments OClone {xml bytes}. Arguments OMerge {xml bytes}.
 Arguments Got {bytes}. Arguments Done {bytes}. Arguments Err {bytes}.
 
 (* ==================================================================== the instance the correspondence evaluates
